@@ -66,7 +66,7 @@ typedef struct {
 
 static const char *kxname(const mx_suite_t *s)
 {
-    if (s->tls13) return "tls13";
+    if (s->tls13) return s->id == 0x1302 ? "tls13-sha384" : "tls13-sha256";   /* the key-schedule hash is what distinguishes TLS 1.3 handshakes */
     if (s->auth == MX_AUTH_PSK) return "psk";
     if (s->auth == MX_AUTH_ECDSA) return "ecdhe-ecdsa";
     return (s->id & 0xff00) == 0xc000 ? "ecdhe-rsa" : "rsa";
@@ -158,6 +158,17 @@ static BIO *qb_new(qb_t *Q)
     BIO *b = BIO_new(qb_meth); BIO_set_data(b, Q); return b;
 }
 
+/* ------------------------------------------------------------------ deterministic OpenSSL randomness ---
+ * Cases must replay exactly, so OpenSSL's randoms, ephemeral keys, IVs and tickets come from a seeded
+ * stream as well (RAND_set_rand_method covers RAND_bytes and RAND_priv_bytes). */
+#include <openssl/rand.h>
+static vf_rng o_rng;
+static int o_rand_bytes(unsigned char *b, int n) { vf_fill(&o_rng, b, (size_t) n); return 1; }
+static int o_rand_status(void) { return 1; }
+static int o_rand_seed(const void *b, int n) { (void) b; (void) n; return 1; }
+static int o_rand_add(const void *b, int n, double e) { (void) b; (void) n; (void) e; return 1; }
+static const RAND_METHOD o_rand_meth = { o_rand_seed, o_rand_bytes, NULL, o_rand_add, o_rand_bytes, o_rand_status };
+
 /* ------------------------------------------------------------------ one connection --- */
 typedef struct {
     const cfg_t *c; const mx_suite_t *s; int dtls; int connno;
@@ -169,25 +180,36 @@ typedef struct {
 
 static char SPEC[400];
 static const cfg_t *CUR;
-static int nviol_here;
+/* Failures of one execution are collected first: the responsible configuration dimensions are then
+ * isolated by re-running reduced configurations, so that the violation key names the cause and stays
+ * the same whatever other dimensions the failing case happened to carry. */
+typedef struct { char clause[40], family[48], msg[1500]; } failure_t;
+static failure_t FAILS[8]; static int nfails;
+static int counting;   /* 1 while executing the configuration under test, 0 while probing reduced ones */
 static void fail(const char *clause, const char *family, const char *fmt, ...)
 {
-    char key[256], msg[1500]; va_list ap; va_start(ap, fmt); vsnprintf(msg, sizeof msg, fmt, ap); va_end(ap);
-    snprintf(key, sizeof key, "c10:%s:%s:%s:%s", clause, mx_vername[CUR->ver], rolename[CUR->role], family);
-    vf_violation(key, SPEC, "%s | %s", msg, SPEC);
-    nviol_here++;
+    if (nfails < 8) {
+        failure_t *f = &FAILS[nfails];
+        va_list ap; va_start(ap, fmt); vsnprintf(f->msg, sizeof f->msg, fmt, ap); va_end(ap);
+        snprintf(f->clause, sizeof f->clause, "%s", clause); snprintf(f->family, sizeof f->family, "%s", family);
+        if (vf_verbose && counting) fprintf(stderr, "  FAIL %s (%s): %s\n", clause, family, f->msg);
+    }
+    nfails++;
 }
-/* the family of a handshake-level failure: key exchange plus every dimension that is not at its default */
-static const char *hs_family(const cfg_t *c)
+#define STAT(k, n) do { if (counting) vf_stat(k, n); } while (0)
+#define STATF(n, ...) do { if (counting) vf_statf(n, __VA_ARGS__); } while (0)
+/* every dimension of c that is not at its default, as a key fragment */
+static const char *deviations(const cfg_t *c, int rechunk_sensitive, int skip_res)
 {
-    static char f[160]; const mx_suite_t *s = &mx_suites[c->suite]; int n = snprintf(f, sizeof f, "%s", kxname(s));
+    static char f[200]; const mx_suite_t *s = &mx_suites[c->suite]; int n = 0; f[0] = 0;
     if (c->cert != default_cert(s)) n += snprintf(f + n, sizeof f - n, "+cert-%s", certs[c->cert].name);
-    if (c->g0 != c->g1) n += snprintf(f + n, sizeof f - n, "+hrr-%s-to-%s", groups[group_idx(c->g0)].name, groups[group_idx(c->g1)].name);
+    if (c->g0 != c->g1) n += snprintf(f + n, sizeof f - n, "+hello-retry-request");
     else if (c->g1) n += snprintf(f + n, sizeof f - n, "+group-%s", groups[group_idx(c->g1)].name);
     if (c->cauth) n += snprintf(f + n, sizeof f - n, "+clientauth-%s", certs[c->cauth].name);
     if (!c->ems && !s->tls13) n += snprintf(f + n, sizeof f - n, "+no-ems");
-    if (c->res == RS_EXTPSK) n += snprintf(f + n, sizeof f - n, "+external-psk");
+    if (c->res != RS_NONE && !skip_res) n += snprintf(f + n, sizeof f - n, "+%s", c->res == RS_EXTPSK ? "external-psk" : resname[c->res]);
     if (MX_IS_DTLS(c->ver) && c->role == R_MXC && !c->cookie) n += snprintf(f + n, sizeof f - n, "+no-cookie");
+    if (rechunk_sensitive) n += snprintf(f + n, sizeof f - n, "+only-when-stream-is-rechunked");
     return f;
 }
 
@@ -257,6 +279,28 @@ static int move_m2o(conn_t *k)
     e->wantTake = 0;
     return tot;
 }
+static int move_m2o(conn_t *k);
+/* Deliver stream bytes the way the reference applications do: read at most `chunk` bytes into the read
+ * buffer, hand them to matrixSslReceivedData, and whenever the library asks to send
+ * (MATRIXSSL_REQUEST_SEND) flush its output before reading on. */
+static void feed_like_an_app(conn_t *k, const unsigned char *d, int len, int chunk)
+{
+    mx_ep *e = &k->M; int off = 0;
+    while (off < len && !e->dead) {
+        unsigned char *rb, *pt = NULL; uint32 ptl = 0;
+        mx_actor = e->id; e->calls++;
+        int n = matrixSslGetReadbuf(e->ssl, &rb);
+        if (n <= 0) { e->dead = 1; e->lastrc = n; return; }
+        if (n > len - off) n = len - off;
+        if (chunk > 0 && n > chunk) n = chunk;
+        memcpy(rb, d + off, n); off += n;
+        mx_actor = e->id; e->calls++; e->wantTake = 1;
+        int rc = matrixSslReceivedData(e->ssl, n, &pt, &ptl);
+        rc = mx_process_rc(e, rc, pt, ptl);
+        if (getenv("C10_FEEDTRACE")) fprintf(stderr, "        fed %d (off %d/%d) rc=%d hsState=%d inlen=%d outlen=%d bFlags=%x flags=%x\n", n, off, len, rc, e->ssl->hsState, e->ssl->inlen, e->ssl->outlen, (unsigned) e->ssl->bFlags, (unsigned) e->ssl->flags);
+        if (rc == MATRIXSSL_REQUEST_SEND && !getenv("C10_NOFLUSH")) move_m2o(k);
+    }
+}
 /* OpenSSL -> MatrixSSL; the TLS byte stream is re-chunked (cfg.chunk), DTLS datagrams stay whole */
 static int move_o2m(conn_t *k)
 {
@@ -268,7 +312,8 @@ static int move_o2m(conn_t *k)
     unsigned char *buf = NULL; int n = 0;
     while (k->Q.out.h) { qnode *x = k->Q.out.h; buf = realloc(buf, n + x->n + 1); memcpy(buf + n, x->d, x->n); n += x->n; q_pop(&k->Q.out); }
     if (n > 0 && n < 3000) trace_wire(k, "os->mx", buf, n);
-    if (n > 0 && !k->M.dead) mx_feed_chunked(&k->M, buf, n, k->c->chunk);
+    if (n > 0 && !k->M.dead) feed_like_an_app(k, buf, n, k->c->chunk);
+    if (vf_verbose && n > 0) fprintf(stderr, "      mx after %d bytes: rc=%d hsState=%d inlen=%d insize=%d outlen=%d dead=%d\n", n, k->M.lastrc, k->M.ssl->hsState, k->M.ssl->inlen, k->M.ssl->insize, k->M.ssl->outlen, k->M.dead);
     free(buf);
     return n;
 }
@@ -324,6 +369,7 @@ static int o_new_session_cb(SSL *s, SSL_SESSION *sess) { (void) s; if (o_saved) 
 static int o_cookie_gen(SSL *s, unsigned char *cookie, unsigned int *len) { (void) s; memcpy(cookie, "c10-hello-verify-cookie!", 24); *len = 24; return 1; }
 static int o_cookie_verify(SSL *s, const unsigned char *cookie, unsigned int len) { (void) s; return len == 24 && !memcmp(cookie, "c10-hello-verify-cookie!", 24); }
 
+static unsigned int o_dtls_timer(SSL *s, unsigned int us) { (void) s; (void) us; return 4000000000u; }
 static int o_version(int ver) { switch (ver) { case MX_TLS11: return TLS1_1_VERSION; case MX_TLS12: return TLS1_2_VERSION; case MX_TLS13: return TLS1_3_VERSION; case MX_DTLS10: return DTLS1_VERSION; default: return DTLS1_2_VERSION; } }
 static int nid_to_group(int nid) { switch (nid) { case NID_X9_62_prime256v1: return 23; case NID_secp384r1: return 24; case NID_secp521r1: return 25; case NID_X25519: return 29; case NID_ffdhe2048: return 0x100; case NID_ffdhe3072: return 0x101; default: return -nid; } }
 
@@ -497,7 +543,7 @@ static int data_m2o(conn_t *k, const unsigned char *p, int len, int piece, const
         fail("data-corrupt", ciphername(k->s), "matrixssl->openssl %s: sent %d bytes, openssl delivered %zu, first difference at %zu | %s", what, len, got, d, st);
         return -1;
     }
-    vf_stat("payloads_mx_to_openssl_ok", 1);
+    STAT("payloads_mx_to_openssl_ok", 1);
     return 0;
 }
 static int data_o2m(conn_t *k, const unsigned char *p, int len, int piece, const char *what)
@@ -518,7 +564,7 @@ static int data_o2m(conn_t *k, const unsigned char *p, int len, int piece, const
         fail("data-corrupt", ciphername(k->s), "openssl->matrixssl %s: sent %d bytes, matrixssl delivered %zu, first difference at %zu | %s", what, len, got, d, st);
         return -1;
     }
-    vf_stat("payloads_openssl_to_mx_ok", 1);
+    STAT("payloads_openssl_to_mx_ok", 1);
     return 0;
 }
 static int data_phase(conn_t *k, int plan)
@@ -535,7 +581,7 @@ static int data_phase(conn_t *k, int plan)
             int piece = k->dtls ? L : 16384;
             if ((m2o ? data_m2o(k, p, L, piece, what) : data_o2m(k, p, L, L, what)) < 0) { free(p); return -1; }
         }
-        vf_statf(1, "size_%d_roundtrips", L);
+        STATF(1, "size_%d_roundtrips", L);
     }
     if (plan & PLAN_SPLIT) {
         /* many tiny writes, one record each, delivered as one burst */
@@ -557,7 +603,7 @@ static int data_phase(conn_t *k, int plan)
                 size_t got = (m2o ? k->ogotlen : k->M.gotlen) - base; const unsigned char *g = (m2o ? k->ogot : k->M.got) + base;
                 if (got != (size_t) L || memcmp(g, p, L)) { char st[700]; describe_failure(k, st, sizeof st); fail("data-corrupt", ciphername(k->s), "%s record-splitting writes: %d bytes in 1..7-byte records, %zu delivered or content differs | %s", m2o ? "matrixssl->openssl" : "openssl->matrixssl", L, got, st); free(p); return -1; }
             }
-            vf_stat("split_write_bursts_ok", 1);
+            STAT("split_write_bursts_ok", 1);
         }
     }
     free(p);
@@ -588,16 +634,17 @@ static int run_connection(conn_t *k, const cfg_t *c, SSL_CTX *ctx, sslKeys_t *mk
     const char *why = NULL;
     memset(k, 0, sizeof *k); memset(R, 0, sizeof *R);
     k->c = c; k->s = &mx_suites[c->suite]; k->dtls = MX_IS_DTLS(c->ver); k->connno = connno; k->Q.dgram = k->dtls;
-    if (m_session_new(k, mkeys, sid, &why) < 0) { vf_statf(1, "not_mutually_supported_%s", why); return -2; }
+    if (m_session_new(k, mkeys, sid, &why) < 0) { STATF(1, "not_mutually_supported_%s", why); return -2; }
     k->O = SSL_new(ctx);
     BIO *b = qb_new(&k->Q); SSL_set_bio(k->O, b, b);
-    if (k->dtls) { SSL_set_options(k->O, SSL_OP_NO_QUERY_MTU); SSL_set_mtu(k->O, 1400); }
+    /* the queue never loses a datagram: keep OpenSSL's wall-clock retransmission timer from firing on a loaded machine */
+    if (k->dtls) { SSL_set_options(k->O, SSL_OP_NO_QUERY_MTU); SSL_set_mtu(k->O, 1400); DTLS_set_timer_cb(k->O, o_dtls_timer); }
     if (c->role == R_MXC) SSL_set_accept_state(k->O); else { SSL_set_connect_state(k->O); if (connno > 0 && o_saved) SSL_set_session(k->O, o_saved); }
     pump(k);
     int both = k->odone && !k->ofail && m_done(k) && !k->M.dead;
     if (!both) {
         char st[900]; describe_failure(k, st, sizeof st);
-        fail(connno ? "resumed-handshake-fails" : "handshake-fails", connno ? resname[c->res] : hs_family(c), "%s handshake did not complete on both stacks | %s", connno ? "second (resumption)" : "first", st);
+        fail(connno ? "resumed-handshake-fails" : "handshake-fails", connno ? resname[c->res] : kxname(k->s), "%s handshake did not complete on both stacks | %s", connno ? "second (resumption)" : "first", st);
         return -1;
     }
     R->ok = 1;
@@ -657,31 +704,32 @@ static const char *static_gap(const cfg_t *c)
     return NULL;
 }
 
-static void run_config(void *arg)
+/* Execute one configuration completely; failures go to FAILS[].  Returns 1 when both stacks support it
+ * and every phase ran, 0 when it failed, -1 when it is not mutually supported. */
+static hs_result R1, R2;
+static int execute(const cfg_t *c)
 {
-    const cfg_t *c = arg; const mx_suite_t *s = &mx_suites[c->suite]; const char *why = NULL;
-    CUR = c; cfg_spec(c, SPEC, sizeof SPEC); nviol_here = 0;
-    vf_stat("cases", 1);
-    vf_statf(1, "cases_%s_%s", mx_vername[c->ver], rolename[c->role]);
-    if (vf_verbose) fprintf(stderr, "CASE %s\n", SPEC);
-    uint64_t h = vf_hash(SPEC, strlen(SPEC));
+    const mx_suite_t *s = &mx_suites[c->suite]; const char *why = NULL; char spec[400];
+    CUR = c; cfg_spec(c, spec, sizeof spec); nfails = 0;
+    uint64_t h = vf_hash(spec, strlen(spec));
     mx_entropy_seed(vf_seed * 1000003ULL + h);
+    vf_rng_init(&o_rng, vf_seed, h);
     for (int i = 0; i < 48; i++) ext_psk[i] = (unsigned char) (0x30 + i * 5);
-    if ((why = static_gap(c))) { vf_stat("not_mutually_supported", 1); vf_statf(1, "not_mutually_supported_%s", why); return; }
+    if ((why = static_gap(c))) { STAT("not_mutually_supported", 1); STATF(1, "not_mutually_supported_%s", why); return -1; }
     SSL_CTX *ctx = o_ctx_new(c, &why);
-    if (!ctx) { vf_stat("not_mutually_supported", 1); vf_statf(1, "not_mutually_supported_%s", why); return; }
+    if (!ctx) { STAT("not_mutually_supported", 1); STATF(1, "not_mutually_supported_%s", why); return -1; }
     sslKeys_t *mk = m_keys_new(c, &why);
-    if (!mk) { vf_stat("not_mutually_supported", 1); vf_statf(1, "not_mutually_supported_%s", why); SSL_CTX_free(ctx); return; }
+    if (!mk) { STAT("not_mutually_supported", 1); STATF(1, "not_mutually_supported_%s", why); SSL_CTX_free(ctx); return -1; }
     sslSessionId_t *sid = NULL;
     if (c->role == R_MXC) matrixSslNewSessionId(&sid, NULL);
-    conn_t K; hs_result R1, R2;
+    conn_t K;
     int rc = run_connection(&K, c, ctx, mk, sid, 0, c->plan, &R1);
-    if (rc == -2) { vf_stat("not_mutually_supported", 1); conn_free(&K); goto out; }
+    if (rc == -2) { STAT("not_mutually_supported", 1); conn_free(&K); goto out; }
     if (rc == 0 && c->res == RS_EXTPSK) {
         /* external PSK: both must have used it (OpenSSL reports PSK handshakes as "reused"; no certificate is exchanged) */
         X509 *pc = c->role == R_MXS ? SSL_get_peer_certificate(K.O) : NULL;
         if (!R1.ores || pc) fail("parameter-mismatch", "external-psk", "external PSK configured on both stacks but openssl reports reused=%d peer-cert=%s (certificate handshake was used instead)", R1.ores, pc ? "yes" : "no");
-        else vf_stat("external_psk_handshakes_ok", 1);
+        else STAT("external_psk_handshakes_ok", 1);
         if (pc) X509_free(pc);
     } else if (rc == 0 && (R1.mres || R1.ores)) fail("parameter-mismatch", "resumed-flag", "first connection reported as resumed: matrixssl %d openssl %d", R1.mres, R1.ores);
     int held = 0;
@@ -701,42 +749,89 @@ static void run_config(void *arg)
     if (rc == 0 && c->res != RS_NONE && c->res != RS_EXTPSK) {
         if (!held) {
             /* the server side did not hand out state (allowed: a server MAY decline to issue a ticket); counted so that a mode that is never exercised shows up */
-            vf_statf(1, "resume_state_not_issued_%s_%s", resname[c->res], rolename[c->role]);
+            STATF(1, "resume_state_not_issued_%s_%s", resname[c->res], rolename[c->role]);
             if (vf_verbose) fprintf(stderr, "  client holds no %s state after the first connection; resumption not exercised\n", resname[c->res]);
-            rc = 1;
         } else {
             mx_now += 2;
             int plan2 = K.dtls ? 0x3 : (0x1 | 0x10);     /* 1 byte and 16385 bytes (TLS) / 1 and 100 (DTLS) after resumption */
             rc = run_connection(&K, c, ctx, mk, sid, 1, plan2 | PLAN_SPLIT, &R2);
-            if (rc == 0 || (R2.ok)) {
+            if (R2.ok) {
                 if (!R2.mres || !R2.ores) fail("not-resumed", resname[c->res], "both stacks held %s state but the second handshake was resumed per matrixssl=%d openssl=%d", resname[c->res], R2.mres, R2.ores);
-                else vf_statf(1, "resumed_%s_%s", resname[c->res], rolename[c->role]);
+                else STATF(1, "resumed_%s_%s", resname[c->res], rolename[c->role]);
             }
             conn_free(&K);
         }
     }
-    if (rc == 0 && !nviol_here) {
-        vf_stat("configurations_interoperated", 1);
-        vf_distinct("%s", SPEC);
-        vf_sample("%s -> version %s suite %04x group %d ems %d, resumed(second) %s", SPEC, mx_vername[R1.mver], R1.msuite, s->tls13 ? R1.mgroup : R1.ogroup, R1.mems, (c->res != RS_NONE && c->res != RS_EXTPSK) ? "yes" : "n/a");
-    }
 out:
-    vf_flush();   /* keep this case's records even if teardown trips a sanitizer */
+    if (counting) vf_flush();   /* keep this case's counters even if teardown trips a sanitizer */
     if (o_saved) { SSL_SESSION_free(o_saved); o_saved = NULL; }
     if (sid) matrixSslDeleteSessionId(sid);
     matrixSslDeleteKeys(mk);
     SSL_CTX_free(ctx);
+    return rc == -2 ? -1 : (nfails ? 0 : 1);
+}
+
+/* does the reduced configuration still fail with the same clause? */
+static int still_fails(const cfg_t *t, const char *clause)
+{
+    failure_t keep[8]; int nkeep = nfails; memcpy(keep, FAILS, sizeof keep);
+    int r = execute(t), same = 0;
+    if (r == 0) for (int i = 0; i < nfails && i < 8; i++) if (!strcmp(FAILS[i].clause, clause)) same = 1;
+    memcpy(FAILS, keep, sizeof keep); nfails = nkeep;
+    return same;
+}
+
+static void run_config(void *arg)
+{
+    const cfg_t *c = arg; const mx_suite_t *s = &mx_suites[c->suite];
+    cfg_spec(c, SPEC, sizeof SPEC);
+    vf_stat("cases", 1);
+    vf_statf(1, "cases_%s_%s", mx_vername[c->ver], rolename[c->role]);
+    if (vf_verbose) fprintf(stderr, "CASE %s\n", SPEC);
+    if (RAND_set_rand_method(&o_rand_meth) != 1) { vf_incon("RAND_set_rand_method failed"); return; }
+    counting = 1;
+    int r = execute(c);
+    counting = 0;
+    if (r == 1) {
+        vf_stat("configurations_interoperated", 1);
+        vf_distinct("%s", SPEC);
+        vf_sample("%s -> version %s suite %04x group %d ems %d, resumed(second) %s", SPEC, mx_vername[R1.mver], R1.msuite, s->tls13 ? R1.mgroup : R1.ogroup, R1.mems, (c->res != RS_NONE && c->res != RS_EXTPSK) ? "yes" : "n/a");
+    }
+    if (r != 0) return;
+    /* isolate the responsible dimensions: reset one at a time to its default, keep the reset if the same clause still fails */
+    failure_t mine[8]; int nmine = nfails > 8 ? 8 : nfails; memcpy(mine, FAILS, sizeof mine);
+    int verbose = vf_verbose; vf_verbose = 0;
+    for (int i = 0; i < nmine; i++) {
+        int dup = 0; for (int j = 0; j < i; j++) if (!strcmp(mine[j].clause, mine[i].clause) && !strcmp(mine[j].family, mine[i].family)) dup = 1;
+        if (dup) continue;
+        const char *clause = mine[i].clause; cfg_t m = *c, t; int rechunk = 0;
+        int resume_clause = !strcmp(clause, "resumed-handshake-fails") || !strcmp(clause, "not-resumed");
+        if (m.chunk) { t = m; t.chunk = 0; if (still_fails(&t, clause)) m = t; else rechunk = 1; }
+        if (!strcmp(clause, "handshake-fails") || resume_clause) { t = m; t.plan = 1; if (still_fails(&t, clause)) m = t; }
+        if (m.res != RS_NONE && !resume_clause && strcmp(mine[i].family, "external-psk")) { t = m; t.res = RS_NONE; if (still_fails(&t, clause)) m = t; }
+        if (m.cauth) { t = m; t.cauth = CT_NONE; if (still_fails(&t, clause)) m = t; }
+        if (m.cert != default_cert(s)) { t = m; t.cert = default_cert(s); if (still_fails(&t, clause)) m = t; }
+        if (m.g1 || m.g0) { t = m; t.g0 = t.g1 = 0; if (still_fails(&t, clause)) m = t; }
+        if (!m.ems) { t = m; t.ems = 1; if (still_fails(&t, clause)) m = t; }
+        if (!m.cookie) { t = m; t.cookie = 1; if (still_fails(&t, clause)) m = t; }
+        char key[320], mspec[400]; cfg_spec(&m, mspec, sizeof mspec);
+        snprintf(key, sizeof key, "c10:%s:%s:%s:%s%s", clause, mx_vername[c->ver], rolename[c->role], mine[i].family, deviations(&m, rechunk, resume_clause || !strcmp(mine[i].family, "external-psk")));
+        CUR = c;
+        vf_violation(key, SPEC, "%s | case: %s | smallest configuration still failing this way: %s%s", mine[i].msg, SPEC, mspec, rechunk ? " (passes when whole flights are delivered in one read)" : "");
+    }
+    vf_verbose = verbose;
 }
 
 /* ------------------------------------------------------------------ enumeration --- */
 static cfg_t *CF; static int ncf, capcf;
+static int force_chunk = -1;
 static void add_cfg(cfg_t c)
 {
     /* payload plan and chunking are functions of the position only (seed-stable) */
     int i = ncf;
     if (MX_IS_DTLS(c.ver)) c.plan = vf_thorough ? (0xf | PLAN_SPLIT) : ((1 << (i % 4)) | (1 << ((i + 1) % 4)) | ((i % 3) ? 0 : PLAN_SPLIT));
     else c.plan = vf_thorough ? (0x7f | PLAN_SPLIT) : ((1 << (i % 7)) | (1 << ((i + 3) % 7)) | (1 << ((i + 5) % 7)) | ((i % 3) ? 0 : PLAN_SPLIT));
-    c.chunk = chunks[(i / 2) % 6];
+    c.chunk = force_chunk >= 0 ? force_chunk : chunks[(i / 2) % 6];
     if (ncf == capcf) { capcf = capcf ? capcf * 2 : 1024; CF = realloc(CF, capcf * sizeof *CF); }
     CF[ncf++] = c;
 }
@@ -756,23 +851,34 @@ static void enumerate_quick(void)
     /* 2. one-factor deviations around one representative suite per (role, version, key-exchange family) */
     for (int role = 0; role < 2; role++) for (int v = 0; v < MX_NVER; v++) {
         int rot = role + 2 * v;
-        const char *fams[] = { "rsa", "ecdhe-rsa", "ecdhe-ecdsa", "psk", "tls13" };
+        const char *fams[] = { "rsa", "ecdhe-rsa", "ecdhe-ecdsa", "psk", "tls13" };   /* prefix match: tls13-sha256/-sha384 are one family here */
         for (int f = 0; f < 5; f++) {
             int cand[16], nc = 0;
-            for (int si = 0; si < MX_NSUITES; si++) if (mx_suite_ok_for(&mx_suites[si], v) && !strcmp(kxname(&mx_suites[si]), fams[f])) cand[nc++] = si;
+            for (int si = 0; si < MX_NSUITES; si++) if (mx_suite_ok_for(&mx_suites[si], v) && !strncmp(kxname(&mx_suites[si]), fams[f], strlen(fams[f])) && (f != 0 || !strcmp(kxname(&mx_suites[si]), "rsa"))) cand[nc++] = si;
             if (!nc) continue;
             int pick = 0;
 #define REP() base_cfg(role, v, cand[(rot + pick++) % nc])
             const mx_suite_t *s0 = &mx_suites[cand[0]]; cfg_t c;
             for (int ct = 1; ct < CT_N; ct++) if (ct != CT_RSA3072 && cert_fits(s0, ct, v) && ct != default_cert(s0)) { c = REP(); c.cert = ct; add_cfg(c); }
             if (s0->tls13 || suite_is_ecdhe(s0)) for (int g = 1; g <= 4; g++) { c = REP(); c.g0 = c.g1 = groups[g].id; add_cfg(c); }
-            if (s0->tls13) for (int h = 0; h < 2; h++) { c = REP(); c.g0 = hrr_pairs[h][0]; c.g1 = hrr_pairs[h][1]; add_cfg(c); }
+            /* TLS 1.3: HelloRetryRequest and both PSK modes once per suite (the transcript / binder hash differs) */
+            if (s0->tls13) for (int i = 0; i < nc; i++) for (int h = 0; h < 2; h++) { c = base_cfg(role, v, cand[i]); c.g0 = hrr_pairs[h][0]; c.g1 = hrr_pairs[h][1]; add_cfg(c); }
             if (s0->auth != MX_AUTH_PSK) { c = REP(); c.cauth = CT_RSA; add_cfg(c); c = REP(); c.cauth = CT_EC256; add_cfg(c); }
-            if (s0->tls13) { c = REP(); c.res = RS_PSK13; add_cfg(c); c = REP(); c.res = RS_EXTPSK; add_cfg(c); }
+            if (s0->tls13) for (int i = 0; i < nc; i++) { c = base_cfg(role, v, cand[i]); c.res = RS_PSK13; add_cfg(c); c = base_cfg(role, v, cand[i]); c.res = RS_EXTPSK; add_cfg(c); }
             else { c = REP(); c.res = RS_SID; add_cfg(c); c = REP(); c.res = RS_TICKET; add_cfg(c); c = REP(); c.ems = 0; add_cfg(c); }
             if (MX_IS_DTLS(v) && role == R_MXC && f == 1) { c = REP(); c.cookie = 0; add_cfg(c); }
 #undef REP
         }
+    }
+}
+/* 3. a few many-factor TLS 1.3 configurations (HelloRetryRequest + client certificate + ticket resumption make the
+ *    largest ClientHello/flights), delivered in 3- and 17-byte reads */
+static void enumerate_quick_combined(void)
+{
+    for (int role = 0; role < 2; role++) for (int si = 0; si < MX_NSUITES; si++) if (mx_suites[si].tls13) for (int k = 0; k < 2; k++) {
+        cfg_t c = base_cfg(role, MX_TLS13, si);
+        c.g0 = hrr_pairs[(si + k) % 6][0]; c.g1 = hrr_pairs[(si + k) % 6][1]; c.cauth = k ? CT_EC256 : CT_RSA; c.res = RS_PSK13; c.cert = k ? CT_EC384 : CT_RSA;
+        force_chunk = k ? 17 : 3; add_cfg(c); force_chunk = -1;
     }
 }
 static void enumerate_thorough(void)
@@ -829,17 +935,17 @@ int main(int argc, char **argv)
     if (vf_case) {
         cfg_t c;
         if (cfg_parse(vf_case, &c) < 0) { vf_incon("cannot parse case '%s'", vf_case); vf_flush(); return 2; }
-        vf_fork_case(run_config, &c, "interop", vf_case, 120);
+        vf_fork_case(run_config, &c, "interop", vf_case, 900);
         vf_flush();
         return 0;
     }
-    if (vf_thorough) enumerate_thorough(); else enumerate_quick();
+    if (vf_thorough) enumerate_thorough(); else { enumerate_quick(); enumerate_quick_combined(); }
     long lim = vf_argl("--limit", 0);
     for (int i = 0; i < ncf; i++) {
         if (lim && i >= lim) break;
         if (!vf_mine(i)) continue;
         char spec[400]; cfg_spec(&CF[i], spec, sizeof spec);
-        vf_fork_case(run_config, &CF[i], "interop", spec, 120);
+        vf_fork_case(run_config, &CF[i], "interop", spec, 900);
     }
     if (vf_shard == 0) { vf_stat("configurations_enumerated", ncf); vf_fork_case(static_ecdh_suites, NULL, "interop", "static-ecdh-suites", 60); }
     vf_flush();
